@@ -40,7 +40,7 @@ Lemma rd_out r : nres T <= r -> rd T r = dR.
 Proof. intros. unfold rd. apply nth_overflow. exact H. Qed.
 Lemma wf_res_parts r : r < nres T ->
   let d := rd T r in
-  3 <= r_dep d /\ (forall b, r_by d = Some b -> r_dep d <= b) /\
+  3 <= r_dep d /\ (forall b, r_by d = Some b -> r_dep d <= b /\ 4 <= b) /\
   (forall r', In (SR r') (r_reads d) -> r' < r /\ forall b, r_by d = Some b -> exists b', r_by (rd T r') = Some b' /\ b' <= b) /\
   r_skip d = None.
 Proof.
@@ -48,7 +48,7 @@ Proof.
   apply andb_true_iff in W as [W W6]. apply andb_true_iff in W as [W _]. apply andb_true_iff in W as [W W4]. apply andb_true_iff in W as [W _].
   apply andb_true_iff in W as [W1 W2]. apply Nat.leb_le in W1. split; [exact W1|]. split; [|split].
   3:{ destruct (r_skip d); [discriminate|reflexivity]. }
-  - intros b B. rewrite B in W2. now apply Nat.leb_le.
+  - intros b B. rewrite B in W2. apply andb_true_iff in W2 as [Wa Wb]. split; now apply Nat.leb_le.
   - intros r' Hin. rewrite forallb_forall in W4. specialize (W4 _ Hin). simpl in W4. apply andb_true_iff in W4 as [Wa Wb].
     apply Nat.ltb_lt in Wa. split; auto. intros b B. rewrite B in Wb. destruct (r_by (rd T r')) as [b'|]; try discriminate.
     exists b'. split; auto. now apply Nat.leb_le.
@@ -75,6 +75,12 @@ Proof.
   - rewrite rd_out by lia. simpl; lia.
 Qed.
 Lemma dep_le_by r b : r_by (rd T r) = Some b -> r_dep (rd T r) <= b.
+Proof.
+  intros B. destruct (lt_dec r (nres T)) as [L|L].
+  - destruct (wf_res_parts r L) as [_ [P _]]. now apply P.
+  - rewrite rd_out in B by lia. discriminate.
+Qed.
+Lemma by_ge4 r b : r_by (rd T r) = Some b -> 4 <= b.
 Proof.
   intros B. destruct (lt_dec r (nres T)) as [L|L].
   - destruct (wf_res_parts r L) as [_ [P _]]. now apply P.
@@ -280,8 +286,17 @@ Proof.
     + simpl. apply (inv_vis s I r b); auto. lia.
 Qed.
 
+Lemma Inv_copy s : Inv s -> Inv (copy_state T s).
+Proof.
+  intros I. pose proof (inv_stg s I) as HS. unfold copy_state. constructor; cbn [m_slots m_stg m_vals].
+  - apply repeat_length.
+  - lia.
+  - intros r l. unfold slot; cbn [m_slots]. rewrite nth_repeat_None. discriminate.
+  - intros r b L B Hb. pose proof (by_ge4 r b B). lia.
+Qed.
+
 Lemma Inv_step s o : Inv s -> Inv (step T s o).
-Proof. intros I. destruct o; simpl. now apply Inv_setvar. now apply Inv_realize. now apply Inv_query. Qed.
+Proof. intros I. destruct o; simpl. now apply Inv_setvar. now apply Inv_realize. now apply Inv_query. now apply Inv_copy. Qed.
 Lemma Inv_run : forall l s, Inv s -> Inv (run T s l).
 Proof. unfold run. induction l; simpl; intros; auto. apply IHl. now apply Inv_step. Qed.
 
